@@ -50,12 +50,18 @@ theorem lstsqA_eq (ids : List Nat) (X : Mat) (hkind : CorrRemoverSrc.fitMeanKind
   rw [hc, hs]
   rfl
 
+theorem lstsqAssumed_none (A Z β : Mat) (ms mz : Nat) : lstsqAssumed none A Z β ms mz = isLstsq A Z β ms mz := rfl
+
+/-- with an explicit cut-off nothing is assumed: the hypothesis `isLstsqSrc … = true` would be vacuous -/
+theorem lstsqAssumed_some (q : Rat) (A Z β : Mat) (ms mz : Nat) : lstsqAssumed (some q) A Z β ms mz = true := rfl
+
 theorem isLstsqSrc_eq (ids : List Nat) (m : Nat) (X β : Mat) (hkind : CorrRemoverSrc.fitMeanKind = .perColumn)
     (hc : CorrRemoverSrc.fitCenter = fun s m => s - m) (hs : sensIdx ids = ids)
-    (hk : keptIdx ids m = nonSensIdx ids m) :
+    (hk : keptIdx ids m = nonSensIdx ids m) (hr : CorrRemoverSrc.lstsqRcond = none) :
     isLstsqSrc ids m X β = isLstsq (center (sens ids X) (fitMean ids X)) (nonSens ids m X) β ids.length
       (nonSensIdx ids m).length := by
   unfold isLstsqSrc
+  rw [hr, lstsqAssumed_none]
   rw [lstsqA_eq ids X hkind hc hs]
   unfold useSrc nonSens
   rw [hk]
